@@ -10,8 +10,63 @@ BASE = 'dashlive/server/requesthandler/base.py'
 MRQ = 'dashlive/server/requesthandler/media_requests.py'
 
 
+def build_serve_manifest(variant, i):
+    import html
+    import logging
+    import math
+    from fractions import Fraction
+    b = lambda k: bool(i[k])
+    g = lambda k: int(i[k])
+
+    class Opts(NS):
+        def update(self, **kw):
+            self.__dict__.update(kw)
+
+        def remove_unused_parameters(self, mode):
+            pass
+
+    def calc(**kw):
+        if b('bad_options'):
+            raise ValueError('bad')
+        return Opts(patch=b('opt_patch'), segmentTimeline=b('opt_timeline'))
+    captured = {}
+
+    def render(name, **ctx):
+        captured['options'] = ctx['options']
+        return 'BODY'
+
+    def create_context(**kw):
+        d = dict(kw)
+        if b('has_mup'):
+            d['minimumUpdatePeriod'] = Fraction(g('mup_num'), g('mup_den'))
+        return d
+    mft = NS(restrictions={}, features={'segmentTimeline'} if b('feat_timeline') else set(), segment_timeline=b('mft_timeline'))
+    fl = NS(request=NS(args={}), make_response=lambda *a: NS(args=a), render_template=render)
+    fn = extract_method('dashlive/server/requesthandler/manifest_requests.py', 'ServeManifest', 'get', {
+        'flask': fl, 'logging': logging, 'html': html, 'math': math, 'current_manifest': mft, 'current_stream': NS(title='t'),
+        'ManifestContext': lambda **kw: NS(**kw), 'ManifestTemplateContext': object, 'cast': lambda t, v: v,
+        'add_allowed_origins': lambda h, methods=None: None})
+    me = NS(calculate_options=calc, create_context=create_context,
+            check_for_synthetic_manifest_error=lambda o, c: NS(args=('synthetic', g('code'))) if b('synthetic_error') else None)
+    env = {k: b(k) for k in ('bad_options', 'opt_patch', 'opt_timeline', 'feat_timeline', 'mft_timeline', 'synthetic_error', 'has_mup')}
+    env.update(mup_num=g('mup_num'), mup_den=g('mup_den'), code=g('code'),
+               max_age_is=lambda h, v: h.get('Cache-Control') == f'max-age={v}')
+
+    def call():
+        r = fn(me, variant, 'stream', 'name.mpd')
+        a = r.args
+        if a[0] == 'synthetic':
+            return NS(status=a[1], kind='synthetic')
+        if isinstance(a[0], tuple):
+            return NS(status=a[0][1], kind='manifest', body=NS(options=captured['options']), headers=a[0][2])
+        return NS(status=a[1], kind='error')
+    return {'env': env, 'old_env': dict(env), 'call': call}
+
+
 def build(key, variant, i):
     qual = key.split(':')[1]
+    if qual == 'ServeManifest.get':
+        return build_serve_manifest(variant, i)
     if qual.endswith('calculate_injected_error_segments'):
         return build_injected(variant, i)
     inc = extract_method(BASE, 'RequestHandlerBase', 'increment_error_counter', {'flask': flask})
